@@ -679,3 +679,79 @@ def tok_9(ctx, rep):
            'the scanned line is cut at the quote of every open f-string, but only the innermost one can be closed: after a '
            'cut at an outer quote the pseudo-token match is empty (assert / no progress) and parsing raises')
     rep.minimum('TOK-9', 1)
+
+
+# ---------------------------------------------------------------------------
+# TOK-10 : when the scan of a line is abandoned, the rest of the line is kept
+# ---------------------------------------------------------------------------
+def tok_10(ctx, rep):
+    rep.rule('TOK-10', 'every `break` out of the per-line scan loop either happens at the end of the line (pos == max_ / the '
+                       'empty end-of-text match) or is preceded, in the same block, by a statement that stores the rest of '
+                       'the *physical* line (an open-ended slice line[k:] of the loop variable itself, not of a shortened '
+                       'copy): otherwise the characters after the scan position are in no token and no prefix')
+    from ..facts import facts_at, holds
+    from ..model import block_of
+    mod = ctx.prog.mod(TOK)
+    tl = mod.funcs.get('tokenize_lines')
+    if tl is None:
+        raise AnalysisError('anchor vanished: tokenize_lines')
+    # the line loop and the scan loop
+    line_loop = None
+    for n in walk_own(tl.node):
+        if isinstance(n, ast.For) and isinstance(n.iter, ast.Name) and n.iter.id in tl.all_params() and isinstance(n.target, ast.Name):
+            line_loop = n
+            break
+    if line_loop is None:
+        raise AnalysisError('TOK-10: the loop over the lines parameter was not found')
+    line_var = line_loop.target.id
+    scan = [n for n in ast.walk(line_loop) if isinstance(n, ast.While) and isinstance(n.test, ast.Compare)
+            and any(isinstance(x, ast.Name) and x.id == 'pos' for x in ast.walk(n.test))]
+    if len(scan) != 1:
+        raise AnalysisError('TOK-10: expected one scan loop `while pos < max_`, found %d' % len(scan))
+    scan = scan[0]
+    # names that are plain copies of the line variable
+    full = {line_var}
+    for n in ast.walk(line_loop):
+        if isinstance(n, ast.Assign) and len(n.targets) == 1 and isinstance(n.targets[0], ast.Name) \
+                and isinstance(n.value, ast.Name) and n.value.id in full:
+            stores = [x for x in ast.walk(line_loop) if isinstance(x, ast.Name) and x.id == n.targets[0].id
+                      and isinstance(x.ctx, ast.Store)]
+            if len(stores) == 1:
+                full.add(n.targets[0].id)
+
+    def owner_loop(node):
+        p = getattr(node, '_parent', None)
+        while p is not None and not isinstance(p, (ast.While, ast.For)):
+            p = getattr(p, '_parent', None)
+        return p
+
+    def stores_rest(stmt):
+        if not isinstance(stmt, (ast.Assign, ast.AugAssign)):
+            return False
+        for x in ast.walk(stmt.value):
+            if isinstance(x, ast.Subscript) and isinstance(x.slice, ast.Slice) and x.slice.upper is None \
+                    and x.slice.step is None and isinstance(x.value, ast.Name) and x.value.id in full:
+                return True
+        return False
+    n_breaks = 0
+    for b in ast.walk(scan):
+        if not isinstance(b, ast.Break) or owner_loop(b) is not scan:
+            continue
+        n_breaks += 1
+        facts = facts_at(b, tl.node)
+        why = None
+        if holds(facts, 'pos == max_'):
+            why = 'at the end of the line (pos == max_)'
+        elif holds(facts, "token == ''"):
+            why = 'empty end-of-text match: nothing but the pending prefix is left (closer/cut agreement: TOK-9)'
+        else:
+            blk = block_of(b)
+            idx = [x is b for x in blk].index(True) if blk else 0
+            if any(stores_rest(s) for s in blk[:idx]):
+                why = 'the rest of the physical line is stored before the break'
+        rep.ob('TOK-10', TOK, tl.qual, 'break  [%s]' % '; '.join(sorted(('' if p else 'not ') + t for t, p in facts
+                                                                     if any(k in t for k in ('token', 'pos', 'initial'))))[:150],
+               why is not None,
+               'the scan of the line stops here, but the text after the scan position is neither consumed nor stored '
+               '(only a slice of a shortened copy of the line, or nothing, is kept)', reason=why)
+    rep.minimum('TOK-10', 4, 'breaks of the scan loop')
